@@ -378,7 +378,68 @@ func (w *World) Named(pkg, name string) *types.Named {
 			}
 		}
 	}
+	if n := w.renamedType(pkg, name); n != nil {
+		return n
+	}
 	panic(anchorErr{"type " + pkg + "." + name})
+}
+
+// renamedType: a struct type of the pinned tree that is gone under its name, while exactly one struct type that the
+// pinned tree did not have carries the same field types in the same order (cacheNode{Key, Value} renamed to
+// cacheEntry{key, route}).
+func (w *World) renamedType(pkg, name string) *types.Named {
+	p := w.ByPkg[pkgPath(pkg)]
+	if p == nil {
+		return nil
+	}
+	rel := relOfPkg(pkg)
+	base, ok := baselineFields[rel+":"+name]
+	if !ok || len(base) == 0 {
+		return nil
+	}
+	var want []string
+	for _, ft := range base {
+		if i := strings.IndexByte(ft, ' '); i > 0 {
+			want = append(want, ft[i+1:])
+		}
+	}
+	var cands []*types.Named
+	sc := p.Types.Scope()
+	for _, nm := range sc.Names() {
+		if _, known := baselineFields[rel+":"+nm]; known {
+			continue
+		}
+		tn, isT := sc.Lookup(nm).(*types.TypeName)
+		if !isT || tn.IsAlias() {
+			continue
+		}
+		n, isN := tn.Type().(*types.Named)
+		if !isN {
+			continue
+		}
+		st, isS := n.Underlying().(*types.Struct)
+		if !isS || st.NumFields() != len(want) {
+			continue
+		}
+		same := true
+		for i := 0; i < st.NumFields(); i++ {
+			if types.TypeString(st.Field(i).Type(), func(q *types.Package) string {
+				if q.Path() == p.Types.Path() {
+					return ""
+				}
+				return q.Name()
+			}) != want[i] {
+				same = false
+			}
+		}
+		if same {
+			cands = append(cands, n)
+		}
+	}
+	if len(cands) == 1 {
+		return cands[0]
+	}
+	return nil
 }
 
 // NamedOpt is Named for optional types (nil when absent).
@@ -391,7 +452,7 @@ func (w *World) NamedOpt(pkg, name string) *types.Named {
 			}
 		}
 	}
-	return nil
+	return w.renamedType(pkg, name)
 }
 
 // Field resolves a struct field object.
